@@ -20,6 +20,7 @@ import OciModel.Driver.Iter
 import OciModel.Driver.SrvHandlers
 import OciModel.Driver.Resp
 import OciModel.Driver.ClientWriter
+import OciModel.Driver.ManifestDecode
 
 structure DState where
   scopes : OciModel.Driver.Scope.Regs := []
@@ -40,6 +41,9 @@ def step (st : DState) (line : String) : DState × String :=
   | "wire" :: "init" :: imm :: _ => ({ st with mem := OciModel.Mem.init (imm == "1") }, "ok")
   | "mem" :: rest =>
     let (m, out) := OciModel.Driver.Mem.drive st.mem rest
+    ({ st with mem := m }, out)
+  | "mjson" :: rest =>
+    let (m, out) := OciModel.Driver.ManifestDecode.drive st.mem rest
     ({ st with mem := m }, out)
   | "srv" :: _ => (st, "skip")
   | "resp" :: rest => (st, OciModel.Driver.Resp.drive rest)
